@@ -495,6 +495,10 @@ def run(rep, repo, tier):
     rf = find_reader(repo)
     try:
         from .c13 import helper_resolver
+        from .. import lints as _lints
+        for rel_, line_, pat_, missing_ in _lints.regex_digit_gaps(repo, repo.rel('solver')):
+            rep.fail('C10.R1', rf.where, 'a pattern used on the reader side matches every digit of a number', got='%r (line %d of %s) never matches the digit(s) %s: an entry such as 10 or (20 is cut short or split' % (pat_, line_, rel_, missing_),
+                     want='\\d / [0-9]', construct='regular expression without the digit %s' % missing_[0], loc='%s:%d' % (rel_, line_))
         rt = T.ReaderTable(rf, [('', ''), ('(', ''), ('', ')')], resolver=helper_resolver(repo, repo.rel('solver')))
         viol, stats = T.explore(T.reference_writer(), False, rt, check_writer=False)
         rep.extra['states'] = stats['product_states']
